@@ -14,7 +14,8 @@ PROOF_NOTE = ("Trusted: Coq 8.16.1 kernel incl. vm_compute (no native_compute); 
 RUN_NOTE = ("Trusted: Coq 8.16.1 kernel incl. vm_compute (no native_compute); no axioms (Print Assumptions of every "
             "property theorem: Closed under the global context). The theorems are about the Gallina reference semantics "
             "(coq/RefSem.v). The faithful net model (coq/NetModel.v) is PROVED to produce the reference semantics' trace on the "
-            "fragment services / task calls / Parallel / Condition / While / counting loops in the production task (coq/Refine, Properties/Refinement.v: "
+            "fragment of ALL sequential constructs - services / task calls / Parallel / Condition / While / counting loops anywhere, loop "
+            "indices in parameters; only parallel loops are outside - (coq/Refine, Properties/Refinement.v: "
             "net_refines_ref_fragment; all programs, oracles, scripts; ANY set of immediate completions from inside the "
             "service-started notification (then no further service-started function / observer in the script: with them the two "
             "models order the log entries differently), no completions of OTHER services from inside notifications, no mutation; "
@@ -341,6 +342,17 @@ CLAIMS["C06"]["text"] += (
     "which the last instance finishes starts what follows. Not visible in a trace: the index bound to the counting variable "
     "(only through indexed call parameters - compared literally by the correspondence and proved under the re-entrant schedule) "
     "and N <= 0. mon_C06 = mon_C02seq && mon_C06inst is applied to every implementation trace.")
+for _p, _w in (("C04", "exactly the selected branch of every Condition"), ("C05", "exactly as many iterations as the guards / limits dictate")):
+    CLAIMS[_p]["text"] += (
+        " DECISIONS, all schedules (MonitorsDecide.v, RefDecide.v, Properties/C04decide.v, Properties/C05iter.v): every trace "
+        "of the reference semantics satisfies the decision-following monitor mon_decide (C04_decide_programs / "
+        "C05_iter_programs) - " + _w + ": in every task instance the statement started next is exactly where a walk from the "
+        "statement started last arrives when each Condition guard, While guard and loop limit on the way is RECOMPUTED from the "
+        "case's oracle at the history index of its queries (true -> first statement of the Passed block / body, false -> Failed "
+        "block or what follows; a counting loop enters iteration k only if k < the limit read at that test, limit read before "
+        "every test; constant guards by position), and the walk consumed exactly the queries asked. On the refinement fragment "
+        "the faithful net model's traces satisfy it too (net_C04_fragment / net_C05_fragment). The monitor is applied to "
+        "every implementation trace (mon_C04 = mon_C04ctx && mon_C02seq && mon_decide; mon_C05 = mon_C02seq && mon_decide).")
 CLAIMS["C04"]["text"] += (
     " ADDITIONALLY PROVED for ALL schedules and histories (RefC04.v, Properties/C04ctx.v): every variable query names a task "
     "instance that has been announced started and not yet finished at that moment (C04_query_context_ref, monitor "
